@@ -51,7 +51,7 @@ class _MetricFunctionWrapper(BaseEstimator):
         self.name = name if name is not None else func.__name__
         self.greater_is_better = greater_is_better
 
-    def __call__(self, y_true, y_pred):
+    def __call__(self, y_true, y_pred, **kwargs):
         """Returns calculated loss metric by passing `y_true` and `y_pred` to
         underlying metric function.
 
@@ -72,11 +72,11 @@ class _MetricFunctionWrapper(BaseEstimator):
             returns the negative of the metric. If `greater_is_better` attribute
             is False the metric is returned.
         """
-        return self._func(y_true, y_pred)
+        return self._func(y_true, y_pred, **kwargs)
 
 
 class _PercentageErrorMixin:
-    def __call__(self, y_true, y_pred):
+    def __call__(self, y_true, y_pred, **kwargs):
         """Returns calculated loss metric by passing `y_true` and `y_pred` to
         underlying metric function.
 
@@ -99,11 +99,11 @@ class _PercentageErrorMixin:
         loss : float
             Calculated loss metric
         """
-        return self._func(y_true, y_pred, symmetric=self.symmetric)
+        return self._func(y_true, y_pred, symmetric=self.symmetric, **kwargs)
 
 
 class _SquaredErrorMixin:
-    def __call__(self, y_true, y_pred):
+    def __call__(self, y_true, y_pred, **kwargs):
         """Returns calculated loss metric by passing `y_true` and `y_pred` to
         underlying metric function.
 
@@ -126,11 +126,11 @@ class _SquaredErrorMixin:
         loss : float
             Calculated loss metric
         """
-        return self._func(y_true, y_pred, square_root=self.square_root)
+        return self._func(y_true, y_pred, square_root=self.square_root, **kwargs)
 
 
 class _SquaredPercentageErrorMixin:
-    def __call__(self, y_true, y_pred):
+    def __call__(self, y_true, y_pred, **kwargs):
         """Returns calculated loss metric by passing `y_true` and `y_pred` to
         underlying metric function.
 
@@ -158,12 +158,16 @@ class _SquaredPercentageErrorMixin:
             I
         """
         return self._func(
-            y_true, y_pred, symmetric=self.symmetric, square_root=self.square_root
+            y_true,
+            y_pred,
+            symmetric=self.symmetric,
+            square_root=self.square_root,
+            **kwargs,
         )
 
 
 class _AsymmetricErrorMixin:
-    def __call__(self, y_true, y_pred):
+    def __call__(self, y_true, y_pred, **kwargs):
         """Returns calculated loss metric by passing `y_true` and `y_pred` to
         underlying metric function.
 
@@ -188,11 +192,12 @@ class _AsymmetricErrorMixin:
             asymmetric_threshold=self.asymmetric_threshold,
             left_error_function=self.left_error_function,
             right_error_function=self.right_error_function,
+            **kwargs,
         )
 
 
 class _RelativeLossMixin:
-    def __call__(self, y_true, y_pred):
+    def __call__(self, y_true, y_pred, **kwargs):
         """Returns calculated loss metric by passing `y_true` and `y_pred` to
         underlying metric function.
 
@@ -215,6 +220,7 @@ class _RelativeLossMixin:
             y_true,
             y_pred,
             relative_loss_function=self.relative_loss_function,
+            **kwargs,
         )
 
 
@@ -222,6 +228,10 @@ class _ScaledMetricFunctionWrapper(_MetricFunctionWrapper):
     def __init__(self, func, name=None, greater_is_better=False, sp=1):
         self.sp = sp
         super().__init__(func=func, name=name, greater_is_better=greater_is_better)
+
+    def __call__(self, y_true, y_pred, **kwargs):
+        # y_train is passed on as keyword argument
+        return self._func(y_true, y_pred, sp=self.sp, **kwargs)
 
 
 class _ScaledSquaredMetricFunctionWrapper(_SquaredErrorMixin, _MetricFunctionWrapper):
@@ -231,6 +241,12 @@ class _ScaledSquaredMetricFunctionWrapper(_SquaredErrorMixin, _MetricFunctionWra
         self.sp = sp
         self.square_root = square_root
         super().__init__(func=func, name=name, greater_is_better=greater_is_better)
+
+    def __call__(self, y_true, y_pred, **kwargs):
+        # y_train is passed on as keyword argument
+        return self._func(
+            y_true, y_pred, sp=self.sp, square_root=self.square_root, **kwargs
+        )
 
 
 class _PercentageMetricFunctionWrapper(_PercentageErrorMixin, _MetricFunctionWrapper):
